@@ -12,6 +12,7 @@ import AdaptixModel.Types.HintSpec
 import AdaptixProofs.Lemmas.NormDen
 import AdaptixProofs.Lemmas.NormRespects
 import AdaptixProofs.Lemmas.NormIdem
+import AdaptixProofs.Lemmas.NormKeys
 
 namespace Adaptix.Types.C15
 
@@ -82,6 +83,19 @@ theorem normalize_respects (hK : DistinctOrderKeys W) {h₁ h₂ : Hint α} (e :
     normalize W h₁ = normalize W h₂ :=
   normalize_respects_aux W hK e
 
+/-- **The hypothesis holds in CPython.**  With the repaired, structured keys
+    `(str(origin), id(origin), [keys of args])`, everything `_order_args` ever
+    compares gets a distinct key as soon as `id()` separates the objects a hint
+    mentions (and is not 0) and `repr()` separates literal values: no assumption
+    about class *names* is left. -/
+theorem distinct_order_keys (hI : IdentKeys W) : DistinctOrderKeys W :=
+  distinctOrderKeys_of_identKeys W hI
+
+/-- `normalize_respects` under the CPython facts only -/
+theorem canonical_form (hI : IdentKeys W) {h₁ h₂ : Hint α} (e : Equiv h₁ h₂) :
+    normalize W h₁ = normalize W h₂ :=
+  normalize_respects W (distinct_order_keys W hI) e
+
 /-- the rewrites are meaning-preserving for the value denotation -/
 theorem equiv_sound (hK : DistinctOrderKeys W) {h₁ h₂ : Hint α} (e : Equiv h₁ h₂) (v : Val α) :
     den h₁ v ↔ den h₂ v :=
@@ -118,6 +132,10 @@ theorem union_single (hK : DistinctOrderKeys W) (o : Bool) (x : Hint α) (hx : T
 theorem idempotent (hK : DistinctOrderKeys W) (h : Hint α) (hb : TypingBuilt h) :
     normalize W (embed (normalize W h)) = normalize W h :=
   (idem_normalize W hK h hb).1
+
+theorem idempotent_cpython (hI : IdentKeys W) (h : Hint α) (hb : TypingBuilt h) :
+    normalize W (embed (normalize W h)) = normalize W h :=
+  idempotent W (distinct_order_keys W hI) h hb
 
 /-- ... and every member of a normalised union is itself a fixed point -/
 theorem idempotent_members (hK : DistinctOrderKeys W) (h : Hint α) (hb : TypingBuilt h) (a : Norm α)
@@ -163,6 +181,19 @@ example :
     (modelled by giving them the same id), the written order survives
     normalisation; so the hypothesis of `normalize_respects` is necessary. -/
 def Wbad : World Nat := { W₀ with str := fun _ => ['A'], ident := fun _ => 7 }
+
+/-- the object part of `IdentKeys` is satisfiable: a world whose ids are pairwise
+    different and non-zero (the literal part is a fact about `repr()`) -/
+def W₁ : World Nat := { W₀ with ident := fun n => 2000 + n }
+
+example : (∀ o o' : Origin Nat, originKey W₁ o = originKey W₁ o' → o = o') ∧
+    (∀ o : Origin Nat, (originKey W₁ o).2 ≠ 0) := by
+  constructor
+  · intro o o' e
+    have e2 := congrArg Prod.snd e
+    cases o <;> cases o' <;> simp [originKey, W₁, W₀] at e2 ⊢ <;> omega
+  · intro o
+    cases o <;> simp [originKey, W₁, W₀]
 
 theorem distinct_keys_necessary :
     normalize Wbad (.union false [.cls 0, .cls 1]) ≠ normalize Wbad (.union false [.cls 1, .cls 0]) := by decide
